@@ -1,15 +1,30 @@
 /-
 C09 — Ordered listings keep every sibling and entry exactly once, in order (schema 2.x).
 
-Model: Db/Chain.lean (generic keyed chains in a SQL table), instantiated twice in
-Db/V2Crates.lean (Playlist: key = parentListId; PlaylistEntity: key = listId).
-`R A t`  (Proofs/Chain.lean): the table `t` represents the abstract lists `A`
-(one duplicate-free list of ids per key).
+Model: Db/Chain.lean (generic keyed chains in a SQL table: the statements and triggers as list
+operations), instantiated twice in Db/V2Crates.lean (Playlist: key = parentListId;
+PlaylistEntity: key = listId) together with the crate API of src/djinterop/engine/v2.
+Spec: Spec/Ordered.lean (one duplicate-free list of ids per key; `insertAfter`, append, `erase`;
+`Change.holds` = how a listing may change across one operation).
+
+`R A t` (Proofs/Chain.lean): the table `t` represents the abstract lists `A`.
+`ChInv S d` (Proofs/V2Rep.lean): `R S.kids d.pl ∧ R S.ents d.pe`, every entity row makes the
+schema's delete trigger fire, ids within the AUTOINCREMENT counters.
+`ordStep S d op` (Proofs/V2Abs.lean): the Spec.Ordered lists after `op`, computed with the list
+operations of the Spec only, driven by what the Model answered (success, new id).
+
+Known finding (findings/C09.json, table level only): an entity row with trackId ≤ 0 is not
+re-linked when it is removed, because the schema's own trigger is declared `WHEN OLD.trackId > 0`.
+The history theorems therefore carry the decidable hypothesis `ops.all okOp`
+(`okOp (.peAddBack _ t _) = (0 < t)`, every other operation — in particular the whole crate API,
+where add_track demands an existing track — is `okOp`); the unrestricted statement is refuted by
+`C09_history_counterexample`.
 -/
-import Proofs.Chain
+import Proofs.V2Change
+import Proofs.V2WfRaw
 
 namespace EngineModel.Properties.C09
-open EngineModel EngineModel.Db.Chain EngineModel.Spec
+open EngineModel EngineModel.Db.Chain EngineModel.Db.V2 EngineModel.Spec
 
 variable {α : Type}
 
@@ -19,6 +34,13 @@ missing-tail undefined behaviour. -/
 theorem C09_walk_lists_every_item_once_in_order {A : Int → List Int} {t : Table α} (h : R A t) (k : Int) :
     walkIds t k = .ok (A k) ∧ (A k).Nodup :=
   ⟨walkIds_eq h k, h.nodup k⟩
+
+/-- … and the listing of `k` consists of exactly the rows of `k`: none lost, none foreign. -/
+theorem C09_listing_covers_exactly_the_rows {A : Int → List Int} {t : Table α} (h : R A t) (k x : Int) :
+    x ∈ A k ↔ ∃ r ∈ t, r.id = x ∧ r.key = k := by
+  constructor
+  · exact h.cover k x
+  · rintro ⟨r, hr, rfl, rfl⟩; exact h.mem r hr
 
 /-- INSERT under trigger_before_insert_List / trigger_after_insert_List puts the new row
 immediately before `target` (at the end for target 0) in the list of its key and leaves
@@ -43,5 +65,201 @@ example : R (fun k => if k = 0 then [1, 2] else []) ([⟨1, 0, 2, ()⟩, ⟨2, 0
       · exact ⟨⟨1, 0, 2, ()⟩, by simp, rfl, h.symm⟩
       · exact ⟨⟨2, 0, 0, ()⟩, by simp, rfl, h.symm⟩
     · simp [h] at hx
+
+/-! ### the table-level simulation lemmas, one per statement sequence -/
+
+/-- `DELETE FROM Playlist WHERE id = ?` under trigger_after_delete_List. -/
+theorem C09_delete_playlist_simulates {A : Int → List Int} {t : Table α} (h : R A t) {i : Int} {old : Row α}
+    (hg : get t i = some old) :
+    R (setKey (setKey A old.key ((A old.key).erase i)) i []) (deleteCascade t i) :=
+  R_deleteCascade h hg
+
+/-- The four-statement splice of playlist_table::update to another parent. -/
+theorem C09_move_simulates {A : Int → List Int} {t : Table α} (h : R A t) {old : Row α} (hold : old ∈ t)
+    {nk target : Int} (hk : nk ≠ old.key) (hb : target = 0 ∨ target ∈ A nk) (v : α) :
+    R (setKey (setKey A old.key ((A old.key).erase old.id)) nk (Ordered.insertBefore target old.id (A nk)))
+      (move t old.id old.key old.next nk target v) :=
+  R_move h hold hk hb v
+
+/-- playlist_entity_table::add_back. -/
+theorem C09_add_back_simulates {A : Int → List Int} {t : Table α} (h : R A t) {n k : Int} (v : α)
+    (hpos : 0 < n) (hfresh : n ∉ ids t) : R (setKey A k (A k ++ [n])) (appendBack t n k v) :=
+  R_appendBack h v hpos hfresh
+
+/-- playlist_entity_table::remove, the schema's delete trigger firing for every row. -/
+theorem C09_remove_entity_simulates {A : Int → List Int} {t : Table α} (h : R A t) (fires : Row α → Bool)
+    (hfires : ∀ r ∈ t, fires r = true) (k i : Int) :
+    R (setKey A k ((A k).erase i)) (deleteKeyed fires t k i) :=
+  R_deleteKeyed h fires hfires k i
+
+/-- playlist_entity_table::clear. -/
+theorem C09_clear_simulates {A : Int → List Int} {t : Table α} (h : R A t) (fires : Row α → Bool)
+    (hv : ∀ r r' : Row α, r.val = r'.val → fires r = fires r') (hfires : ∀ r ∈ t, fires r = true) (k : Int) :
+    R (setKey A k []) (clearKey fires t k) :=
+  R_clearKey h fires hv hfires k
+
+/-! ### the 2.x crate API and the table-level entity API: per-operation simulation and history induction -/
+
+/-- Per-operation simulation: every operation of the Model keeps the tables a representation of the
+Spec.Ordered lists after the corresponding list operation. -/
+theorem C09_step_simulates {S : Ord} {d : Db} (h : ChInv S d) (op : Op) (hok : okOp op = true) :
+    ChInv (ordStep S d op) (step d op).1 :=
+  chInv_step h op hok
+
+/- Full statement (false, see `C09_history_counterexample`):
+   ∀ ops n, ChInv (ordRun Db.empty Ord.empty (ops.take n)) (run Db.empty (ops.take n)). -/
+/-- History induction: after every prefix of every history from the empty database both tables
+represent the Spec.Ordered lists. -/
+theorem C09_history_represented_partial (ops : List Op) (hok : ops.all okOp = true) (n : Nat) :
+    ChInv (ordRun Db.empty Ord.empty (ops.take n)) (run Db.empty (ops.take n)) := by
+  apply chInv_run chInv_empty
+  rw [List.all_eq_true] at hok ⊢
+  intro op hop
+  exact hok op (List.mem_of_mem_take hop)
+
+/-- … hence the executable chain well-formedness (the predicate the tie evaluates on the real rows). -/
+theorem C09_history_wfChains_partial (ops : List Op) (hok : ops.all okOp = true) :
+    wfChains (run Db.empty ops) = true :=
+  wfChains_of_chInv (chInv_run chInv_empty ops hok)
+
+/-- Every ordered listing of the Model equals the Spec.Ordered list: root_crates, children, the entity
+listing (entity ids in order, each with its track) and crate::tracks; no listing meets the missing-tail
+undefined behaviour; every listing is duplicate-free. -/
+theorem C09_listings_equal_spec {S : Ord} {d : Db} (h : ChInv S d) :
+    qRoots d = .ok (S.kids 0) ∧ (∀ c, qChildren d c = .ok (S.kids c)) ∧ (∀ k, (S.kids k).Nodup) ∧
+    (∀ l, ∃ rows, qEntities d l = .ok rows ∧ rows.map (·.1) = S.ents l ∧ qTracks d l = .ok (rows.map (·.2.1)) ∧
+      (∀ p ∈ rows, ∃ r ∈ d.pe, r.id = p.1 ∧ r.val.track = p.2.1 ∧ r.val.uuid = p.2.2 ∧ r.key = l)) ∧
+    (∀ l, (S.ents l).Nodup) := by
+  refine ⟨walkIds_eq h.rk 0, fun c => walkIds_eq h.rk c, h.rk.nodup, ?_, h.re.nodup⟩
+  intro l
+  obtain ⟨rows, hw, hm, hr⟩ := walkBack_spec h.re l
+  refine ⟨rows.map (fun r => (r.id, r.val.track, r.val.uuid)), ?_, ?_, ?_, ?_⟩
+  · simp [qEntities, hw, Res.bind]
+  · rw [List.map_map]; exact hm
+  · simp [qTracks, hw, Res.bind, List.map_map, Function.comp_def]
+  · intro p hp
+    obtain ⟨r, hrm, rfl⟩ := List.mem_map.mp hp
+    exact ⟨r, (hr r hrm).1, rfl, rfl, rfl, (hr r hrm).2⟩
+
+theorem C09_history_listings_equal_spec_partial (ops : List Op) (hok : ops.all okOp = true) :
+    let d := run Db.empty ops
+    let S := ordRun Db.empty Ord.empty ops
+    qRoots d = .ok (S.kids 0) ∧ (∀ c, qChildren d c = .ok (S.kids c)) ∧
+    (∀ l, ∃ rows, qEntities d l = .ok rows ∧ rows.map (·.1) = S.ents l ∧ qTracks d l = .ok (rows.map (·.2.1))) := by
+  obtain ⟨h1, h2, _, h4, _⟩ := C09_listings_equal_spec (chInv_run chInv_empty ops hok)
+  refine ⟨h1, h2, fun l => ?_⟩
+  obtain ⟨rows, a, b, c, _⟩ := h4 l
+  exact ⟨rows, a, b, c⟩
+
+/-- Across one operation every sibling listing and every entry listing of the Spec.Ordered state changes
+exactly as the property prescribes (`Change.holds`): a crate created after a sibling sits immediately after
+it; a crate created without a position or moved to a new parent appears among its new siblings (the Model
+appends); a removal erases the one item and keeps the rest in order; every other listing is untouched. -/
+theorem C09_step_changes_as_prescribed {S : Ord} {d : Db} (h : ChInv S d) (op : Op) (k : Int) :
+    (kidsChange d op k).holds (S.kids k) ((ordStep S d op).kids k) = true ∧
+    (entsChange d op k).holds (S.ents k) ((ordStep S d op).ents k) = true :=
+  ⟨kids_change h op k, ents_change h op k⟩
+
+/-- The same on the Model's own listings (what the oracle of the tie checks on the real library's
+listings): for every reachable state and every further operation, the listing of every key before and
+after are related by the prescribed change, and the new one is duplicate-free. -/
+theorem C09_history_listings_change_as_prescribed_partial (ops : List Op) (hok : ops.all okOp = true)
+    (op : Op) (hop : okOp op = true) (k : Int) :
+    let d := run Db.empty ops
+    ∃ old new, qChildren d k = .ok old ∧ qChildren (step d op).1 k = .ok new ∧
+      (kidsChange d op k).holds old new = true ∧ new.Nodup ∧
+    ∃ olde newe, (qEntities d k).bind (fun l => .ok (l.map (·.1))) = .ok olde ∧
+      (qEntities (step d op).1 k).bind (fun l => .ok (l.map (·.1))) = .ok newe ∧
+      (entsChange d op k).holds olde newe = true ∧ newe.Nodup := by
+  intro d
+  have hI := chInv_run chInv_empty ops hok
+  have hI' := chInv_step hI op hop
+  obtain ⟨_, a2, _, a4, _⟩ := C09_listings_equal_spec hI
+  obtain ⟨_, b2, b3, b4, b5⟩ := C09_listings_equal_spec hI'
+  refine ⟨_, _, a2 k, b2 k, kids_change hI op k, b3 k, ?_⟩
+  obtain ⟨rows, r1, r2, _, _⟩ := a4 k
+  obtain ⟨rows', s1, s2, _, _⟩ := b4 k
+  refine ⟨_, _, ?_, ?_, ents_change hI op k, b5 k⟩
+  · show (qEntities (run Db.empty ops) k).bind _ = _
+    rw [r1]; simp [Res.bind, r2]
+  · show (qEntities (step (run Db.empty ops) op).1 k).bind _ = _
+    rw [s1]; simp [Res.bind, s2]
+
+/-- An entry's identity is (list, database uuid, track id): add_back treats as a duplicate only an entry of the
+same list with the same track id AND the same database uuid.  Whatever else the list holds — in particular
+an entry of ANOTHER database that happens to carry the same numeric track id — a new entry is appended at the
+end of the listing with the next AUTOINCREMENT id, for every uuid `u`. -/
+theorem C09_add_back_identity_includes_database {S : Ord} {d : Db} (h : ChInv S d) (l t u : Int) (f : Bool) (ht : 0 < t)
+    (hnew : peFind d l t u = none) :
+    (step d (.peAddBack l t u f)).2 = .ok (some (d.peSeq + 1)) ∧
+    (ordStep S d (.peAddBack l t u f)).ents l = S.ents l ++ [d.peSeq + 1] ∧
+    ChInv (ordStep S d (.peAddBack l t u f)) (step d (.peAddBack l t u f)).1 ∧
+    ∃ rows, qEntities (step d (.peAddBack l t u f)).1 l = .ok rows ∧ rows.map (·.1) = S.ents l ++ [d.peSeq + 1] ∧
+      (d.peSeq + 1, t, u) ∈ rows := by
+  have hstep : step d (.peAddBack l t u f) =
+      ({ d with pe := appendBack d.pe (d.peSeq + 1) l ⟨t, u⟩, peSeq := d.peSeq + 1 }, .ok (some (d.peSeq + 1))) := by
+    simp [step, peAddBack, hnew]
+  have hord : (ordStep S d (.peAddBack l t u f)).ents l = S.ents l ++ [d.peSeq + 1] := by
+    rw [ordStep_ok hstep]; simp [ordOk, hnew]
+  have hI' := chInv_step h (.peAddBack l t u f) (by simpa [okOp] using ht)
+  refine ⟨by rw [hstep], hord, hI', ?_⟩
+  obtain ⟨_, _, _, h4, _⟩ := C09_listings_equal_spec hI'
+  obtain ⟨rows, r1, r2, _, r4⟩ := h4 l
+  refine ⟨rows, r1, by rw [r2, hord], ?_⟩
+  have hm : d.peSeq + 1 ∈ rows.map (·.1) := by rw [r2, hord]; simp
+  obtain ⟨p, hp, e⟩ := List.mem_map.mp hm
+  obtain ⟨r, hr, e1, e2, e3, _⟩ := r4 p hp
+  -- the row with the new id is the appended one
+  rw [hstep] at hr
+  rcases mem_appendBack hr with ⟨r0, hr0, e4, _⟩ | ⟨_, e5⟩
+  · exfalso
+    have : d.peSeq + 1 ∈ ids d.pe := by
+      simp only [ids, List.mem_map]; exact ⟨r0, hr0, by rw [← e4, e1, e]⟩
+    have := h.peSeq _ this
+    omega
+  · have : p = (d.peSeq + 1, t, u) := by
+      rw [e5] at e2 e3
+      cases p with
+      | mk a b =>
+        cases b with
+        | mk b c => simp only at e e2 e3; rw [e, ← e2, ← e3]
+    rw [← this]; exact hp
+
+/-- The unrestricted history statement is false of the code: at table level an entry whose trackId is not
+positive is not re-linked when it is removed (the schema's trigger_before_delete_PlaylistEntity is declared
+`WHEN OLD.trackId > 0`), after which get_for_list dereferences the missing tail.
+Replayed on the real library: findings/C09.json, witness
+`pe.add 3 2 0 0 ; pe.add 3 3 0 0 ; pe.add 3 0 0 0 ; pe.remove 3 3 ; pe.list 3`. -/
+theorem C09_history_counterexample :
+    qEntities (run Db.empty [.peAddBack 3 2 0 false, .peAddBack 3 3 0 false, .peAddBack 3 0 0 false, .peRemove 3 3]) 3
+      = .ub .oob_read ∧
+    wfChains (run Db.empty [.peAddBack 3 2 0 false, .peAddBack 3 3 0 false, .peAddBack 3 0 0 false, .peRemove 3 3]) = false := by
+  decide
+
+/-! ### non-vacuity -/
+
+/-- A history exercising creation after the first sibling, sub-crates, a move of a non-last sibling,
+contents and a removal satisfies `okOp`; its listings are the expected ones. -/
+def sampleOps : List Op :=
+  [.createRoot [97], .createRoot [98], .createRootAfter [99] 1, .createSub 1 [100], .createSub 1 [101],
+   .setParent 3 (some 1), .createTrack, .createTrack, .addTrack 1 2, .addTrack 1 1, .peAddBack 1 2 0 false,
+   .removeTrackFrom 1 2, .removeCrate 4]
+
+example : sampleOps.all okOp = true := by decide
+example : qRoots (run Db.empty sampleOps) = .ok [1, 2] := by decide
+example : qChildren (run Db.empty sampleOps) 1 = .ok [5, 3] := by decide
+example : qTracks (run Db.empty sampleOps) 1 = .ok [1] := by decide
+example : (ordRun Db.empty Ord.empty sampleOps).kids 1 = [5, 3] := by decide
+/-- two databases with colliding track ids in one list: [A:7, B:7, A:8, B:8]; re-adding B:7 returns entity 2;
+removing it leaves [A:7, A:8, B:8] -/
+def mixedOps : List Op := [.peAddBack 5 7 0 false, .peAddBack 5 7 1 false, .peAddBack 5 8 0 false, .peAddBack 5 8 1 true]
+example : mixedOps.all okOp = true := by decide
+example : qEntities (run Db.empty mixedOps) 5 = .ok [(1, 7, 0), (2, 7, 1), (3, 8, 0), (4, 8, 1)] := by decide
+example : peFind (run Db.empty (mixedOps.take 1)) 5 7 1 = none ∧ (peGet (run Db.empty (mixedOps.take 1)) 5 7).isSome = true := by decide
+example : (step (run Db.empty mixedOps) (.peAddBack 5 7 1 false)).2 = .ok (some 2) := by decide
+example : qEntities (run Db.empty (mixedOps ++ [.peRemove 5 2])) 5 = .ok [(1, 7, 0), (3, 8, 0), (4, 8, 1)] := by decide
+
+example : okOp (.setParent 3 (some 1)) = true ∧ (kidsChange (run Db.empty (sampleOps.take 5)) (.setParent 3 (some 1)) 1)
+    = Ordered.Change.inserted 3 := by decide
 
 end EngineModel.Properties.C09
